@@ -64,6 +64,14 @@ func casesScore(c *caseCtx) {
 			c.emit("min %s %s => %s", sstr(a), sstr(b), sstr(eval.Min(a, b)))
 		}
 	}
+	// (1b) the constructors are faithful: a heuristic score carries exactly the value it was built from
+	// (every float32 that is not NaN has its place on the line, the infinities included), a mate score its distance
+	for _, v := range floatSet() {
+		h := eval.HeuristicScore(eval.Pawns(v))
+		c.emit("hctor %x => %d %x", math.Float32bits(v), h.Type, math.Float32bits(float32(h.Pawns)))
+		lit := eval.Score{Type: eval.Heuristic, Pawns: eval.Pawns(v)}
+		c.emit("neglit %x => %s", math.Float32bits(v), sstr(lit.Negate().Negate()))
+	}
 	// (2) seeded random scores.
 	n := c.scale(20000, 400000)
 	for i := 0; i < n; i++ {
